@@ -385,19 +385,16 @@ fn ticker_scenarios(s: &mut Session, r: &mut Rng, n: usize) {
 }
 
 // ------------------------------------------------------------------ witnesses of the no-panic theorems (props/C18.v)
-/// D31 (candidate): on a zero-width terminal the zombie scan of MultiState::draw overflows
-/// (`adjust += line_count`, src/multi.rs:324).  While the class is not registered in
-/// known_findings.json (or the defect fixed) the replay only records what it observed in the
-/// evidence counters; flip to report it as a failure of class
-/// `zero-width-zombie-scan-add-overflow`.
-const REPORT_ZERO_WIDTH_FINDING: bool = true;
-
+/// D31 (fixed by /repo f8fa07f): on a zero-width terminal the zombie scan of MultiState::draw used
+/// to overflow (`adjust += line_count`, src/multi.rs:324; now `saturating_add`).  The witness
+/// history is replayed on every run and must NOT panic; if the overflow reappears it is reported
+/// as a failure of class `zero-width-zombie-scan-add-overflow` (regression).
 fn np_case(w: u16, h: u16, ops: Vec<(u64, Op)>) -> Case {
     let bar = BarInit { len: Some(10), fin: Fin::AndLeave, tmpl: vec![TPart::Lit("x".into()), TPart::Pos], target: TInit::Hidden };
     Case { w, h, fail_at: vec![], fail_from: None, mp: TInit::Term(None), bars: vec![bar.clone(), bar.clone(), bar.clone(), bar], ops }
 }
 
-/// Replays the witnesses of C18_no_panic_zero_width_refuted, C18_misuse_yields_site and
+/// Replays the witnesses of C18_zero_width_overflow_regression, C18_misuse_yields_site and
 /// C18_no_panic_nonvacuous (coq/model/SysPanic.v: np_ops, np_ops2) on the implementation: the
 /// model's [step_panics] verdict must be what the real code does.
 fn replay_nopanic_witnesses(s: &mut Session) {
@@ -416,14 +413,13 @@ fn replay_nopanic_witnesses(s: &mut Session) {
         let desc = format!("no-panic witness np_ops + tick (SysPanic.v) {}", describe(&case));
         let p = obs.iter().enumerate().find_map(|(i, o)| o.panic.clone().map(|m| (i, m)));
         match (w, p) {
-            (0, Some((14, m))) if m.contains("overflow") => {
-                s.count("witness:zero-width-zombie-scan-add-overflow:reproduced");
-                if REPORT_ZERO_WIDTH_FINDING {
-                    s.fail("zero-width-zombie-scan-add-overflow", format!("op 14 (tick of the last live member) panicked: {m}; model: step_panics = Some P_draw_adjust_add"), desc.clone());
-                }
-            }
-            (0, None) => s.count("witness:zero-width-zombie-scan-add-overflow:not-reproduced (fixed, or built without overflow checks)"),
+            (0, Some((i, m))) if m.contains("overflow") => s.fail(
+                "zero-width-zombie-scan-add-overflow",
+                format!("op {i} panicked on a zero-width terminal: {m} (model of the current code: step_panics = None; the guards of the code before f8fa07f: Some P_draw_adjust_add at op 14)"),
+                desc.clone(),
+            ),
             (_, Some((i, m))) => s.fail("panic", format!("op {i}: {m} (model: no site reachable here)"), desc.clone()),
+            (0, None) => s.count("witness:np_ops-at-width-0:no-panic"),
             (_, None) => s.count("witness:np_ops-at-width-1:no-panic"),
         }
         s.oracle_only(desc, true);
@@ -448,6 +444,18 @@ fn replay_nopanic_witnesses(s: &mut Session) {
         (3, Suspend(1, vec!["A".into()])), (4, MSuspend(vec!["B".into(), "C".into()])), (5, Remove(3)), (6, MPrintln("p".into())),
         (7, Finish(0, Fin::AndLeave)), (7, Drop(0)), (8, Drop(2)), (9, MClear), (10, Tick(1)), (11, Finish(1, Fin::AndClear)), (12, Drop(1)),
     ];
+    {
+        let mut c0 = np_case(0, 4, ops2.clone());
+        c0.fail_at = vec![7, 30, 31, 32, 33, 34, 35, 36, 37, 38, 39];
+        let obs0 = run_case(&c0);
+        let d0 = format!("no-panic witness np_ops2 / np_fails2 on a ZERO-WIDTH terminal (SysPanic.v) {}", describe(&c0));
+        match obs0.iter().enumerate().find_map(|(i, o)| o.panic.clone().map(|m| (i, m))) {
+            Some((i, m)) if m.contains("overflow") => s.fail("zero-width-arith-overflow", format!("op {i}: {m} (model: run_panics 0 4 = None)"), d0.clone()),
+            Some((i, m)) => s.fail("panic", format!("op {i}: {m} (model: run_panics 0 4 = None)"), d0.clone()),
+            None => s.count("witness:np_ops2-at-width-0:no-panic"),
+        }
+        s.oracle_only(d0, true);
+    }
     let mut case = np_case(7, 4, ops2);
     case.fail_at = vec![7, 30, 31, 32, 33, 34, 35, 36, 37, 38, 39];
     let obs = run_case(&case);
